@@ -8,14 +8,17 @@ import warnings
 import numpy as np
 
 ID = "C17"
-MODULES = ["Quad", "Alloc", "Ctrl", "Ref"]
+MODULES = ["Series", "Quad", "Alloc", "Ctrl", "Ref", "RefP"]
 LEAN_TARGETS = ["Props.C17"]
 ANCHORS = ["cyecca/models/quadrotor.py", "cyecca/models/rdd2.py", "cyecca/models/rdd2_loglinear.py", "scripts/rdd2_sim.py"]
 MISSING = [
     "closed-loop convergence itself (position error below a few centimetres from every initial condition of the envelope) is a stability result for a "
     "saturated, sampled nonlinear cascade: no theorem; the check closes the loop on the REAL casadi functions (plant f stepped with RK4 at 100 Hz x 4 "
     "sub-steps, both cascades, the gains of scripts/rdd2_sim.py) over sampled initial conditions against thresholds looser than the property",
-    "proved instead: the plant's rotor geometry realises the allocator's geometry map axis by axis with positive gains (sqrt(2)/2, sqrt(2)/2, 1), and, "
+    "proved instead: the commanded hover is an exact fixed point of the position-controller cascade stage by stage (position controller at zero "
+    "error demands the trim straight up with the pure-yaw set-point; zero attitude / rate error command zero rate / zero moment; the allocator splits a "
+    "pure thrust equally; with W = m g the plant at those rotor speeds has zero state derivative) — the same fixed point for the SE_2(3) outer loop is "
+    "searched numerically only; the plant's rotor geometry realises the allocator's geometry map axis by axis with positive gains (sqrt(2)/2, sqrt(2)/2, 1), and, "
     "composed with C13, the body moment equals the range-limited demanded moment scaled by those gains when the motors run at the commanded speeds; "
     "C13 (allocation), C14 (set-point frames), C15 (controller laws), C16 (plant invariants) cover the other interfaces",
     "scripts/rdd2_sim.py itself needs ROS and is not run: its wiring (which function feeds which, the gains) is replicated in the harness",
